@@ -28,6 +28,7 @@ import (
 	"strings"
 	"sync"
 	"sync/atomic"
+	"time"
 
 	"verifharness/shot"
 
@@ -192,14 +193,17 @@ func r4Target(m map[string]string, target string) (string, engineX, func()) {
 		addr := l.Addr().String()
 		_ = l.Close()
 		var t *hostile
+		failed := new(bool)
+		x.lateFailed = failed
 		x.afterDecode = func() {
-			var err error
 			for i := 0; i < 50 && t == nil; i++ {
-				var nl net.Listener
-				if nl, err = net.Listen("tcp", addr); err == nil {
+				if nl, err := net.Listen("tcp", addr); err == nil {
 					t = serveHostile(nl, "")
+				} else {
+					time.Sleep(20 * time.Millisecond)
 				}
 			}
+			*failed = t == nil
 		}
 		cleanup = func() {
 			if t != nil {
